@@ -78,6 +78,11 @@ def sizes_field(sizes):
     return ','.join(map(str, sizes)) or '-'
 
 
+def eff_field(data, ops):
+    """the read ops as the byte counts they deliver (what the model's request takes)"""
+    return sizes_field(effective(len(data), ops))
+
+
 def names_field(names):
     return ','.join(names) if names else '-'
 
@@ -103,13 +108,13 @@ def insp_req(fmt, data, sizes):
 
 
 def wrap_req(allowed, expected, data, sizes):
-    return req('wrap', names_field(allowed), expected or '-', insp_impl.content_field(data), sizes_field(sizes))
+    return req('wrap', names_field(allowed), expected or '-', insp_impl.content_field(data), eff_field(data, sizes))
 
 
 def fault_req(allowed, expected, data, sizes, faults):
     fl = ','.join('%s@%d' % (n, k) for n, k in model_faults(faults, expected)) or '-'
     return req('fault', names_field(allowed), expected or '-', insp_impl.content_field(data),
-               sizes_field(sizes), fl)
+               eff_field(data, sizes), fl)
 
 
 def detect_req(data):
@@ -275,6 +280,225 @@ def as_names(kind, names):
     return seq if kind != 'weird' else tuple(seq)       # any container supporting `in`
 
 
+# --------------------------------------------------------------------------
+# the pinned public interface (as DATA: the contract callers rely on; never read from the tree under test)
+# name -> [(parameter, required?, default)]
+
+PINNED = {
+    'InspectWrapper': [('source', True, None), ('expected_format', False, None), ('allowed_formats', False, None)],
+    'InspectWrapper.read': [('size', True, None)],
+    'detect_file_format': [('filename', True, None)],
+    'get_inspector': [('format_name', True, None)],
+    'FileInspector': [('tracing', False, False)],
+    'FileInspector.from_file': [('filename', True, None)],
+    'FileInspector.eat_chunk': [('chunk', True, None)],
+}
+
+
+class CallFormError(Exception):
+    """a legal call form of a pinned public signature was rejected (TypeError)"""
+
+
+def call_tags(name, values):
+    """every legal way of passing `values` (one per pinned parameter): per parameter P(ositional), K(eyword) or
+    O(mitted - only an optional parameter whose value is its default); positionals form a prefix; a trailing
+    'r' passes the keywords in reverse order"""
+    params = PINNED[name]
+    out = []
+
+    def rec(i, tag):
+        if i == len(params):
+            out.append(tag)
+            if tag.count('K') >= 2:
+                out.append(tag + 'r')
+            return
+        pname, req, dflt = params[i]
+        if 'K' not in tag and 'O' not in tag:
+            rec(i + 1, tag + 'P')
+        rec(i + 1, tag + 'K')
+        if not req and values[i] == dflt and type(values[i]) is type(dflt):
+            rec(i + 1, tag + 'O')
+    rec(0, '')
+    return out
+
+
+def bind_form(name, values, tag):
+    params = PINNED[name]
+    rev = tag.endswith('r')
+    tag = tag.rstrip('r')
+    args = [v for (t, v) in zip(tag, values) if t == 'P']
+    kws = [(p[0], v) for (t, p, v) in zip(tag, params, values) if t == 'K']
+    if rev:
+        kws.reverse()
+    return args, dict(kws)
+
+
+def render_call(name, values, tag, shown=None):
+    args, kw = bind_form(name, values, tag)
+    sh = lambda v: '<source>' if hasattr(v, 'read') or hasattr(v, '__next__') else \
+        ('<%d bytes>' % len(v) if isinstance(v, (bytes, bytearray, memoryview)) else repr(v))
+    return '%s(%s)' % (shown or name, ', '.join([sh(a) for a in args] + ['%s=%s' % (k, sh(v)) for k, v in kw.items()]))
+
+
+def invoke(fn, name, values, tag, shown=None):
+    """call `fn` with the logical `values` bound the way `tag` says; a TypeError from the binding itself is a
+    CallFormError naming the form"""
+    args, kw = bind_form(name, values, tag)
+    try:
+        import inspect
+        inspect.signature(fn).bind(*args, **kw)
+    except TypeError as e:
+        raise CallFormError('%s is a legal call of the pinned signature but raises TypeError: %s'
+                            % (render_call(name, values, tag, shown), e))
+    except ValueError:
+        pass
+    return fn(*args, **kw)
+
+
+def pick_tag(name, values, rng, p_default=0.5, default=None):
+    tags = call_tags(name, values)
+    if default is not None and default in tags and rng.random() < p_default:
+        return default
+    return rng.choice(tags)
+
+
+ITER_PROTOS = ('next', 'for', 'for-break-resume', 'iter-next', 'two-iters', 'for-break-next')
+DEFAULT_USAGE = {'form': None, 'read_kw': False, 'source': 'bytesio', 'proto': 'next', 'close_twice': False}
+
+
+def usage(u=None, **kw):
+    d = dict(DEFAULT_USAGE)
+    d.update(u or {})
+    d.update(kw)
+    return d
+
+
+def pick_usage(rng, expected, allowed, iterator=False, p_plain=0.5):
+    """how the public interface is used in one run: constructor call form, read(size) positionally or by
+    keyword, the source (io.BytesIO or a real file), the iteration protocol, close() once or twice"""
+    if rng.random() < p_plain:
+        return dict(DEFAULT_USAGE)
+    return {'form': pick_tag('InspectWrapper', [None, expected, allowed or None], rng, 0.2, 'PKK'),
+            'read_kw': rng.random() < 0.4, 'source': rng.choice(['bytesio', 'bytesio', 'file']),
+            'proto': rng.choice(ITER_PROTOS) if iterator else 'next', 'close_twice': rng.random() < 0.4}
+
+
+def new_wrapper(src, expected, allowed, form=None):
+    """InspectWrapper(source, expected_format=None, allowed_formats=None) called in the given legal form"""
+    F = fi()
+    if form is None:
+        return F.InspectWrapper(src, expected_format=expected, allowed_formats=allowed or None)
+    return invoke(F.InspectWrapper, 'InspectWrapper', [src, expected, allowed or None], form)
+
+
+_SCRATCH = []
+
+
+def scratch_dir():
+    if not _SCRATCH:
+        import atexit
+        import shutil
+        import tempfile
+        d = tempfile.mkdtemp(prefix='verif-insb-')
+        _SCRATCH.append(d)
+        atexit.register(shutil.rmtree, d, True)
+    return _SCRATCH[0]
+
+
+def open_source(data, kind):
+    """a file-like source that honours read(None) / read(-1) / read(0): io.BytesIO or a real file"""
+    if kind == 'file':
+        path = os.path.join(scratch_dir(), 'src-%d' % threading.get_ident())
+        with open(path, 'wb') as f:
+            f.write(data)
+        return open(path, 'rb')
+    return insp_impl.Src(data)
+
+
+def effective(n, ops):
+    """the number of bytes each read op returns from a source of n bytes: a non-negative int reads at most that
+    many, None and negative sizes read everything that is left"""
+    out, pos = [], 0
+    for op in ops:
+        k = n - pos if (op is None or op < 0) else min(op, n - pos)
+        out.append(k)
+        pos += k
+    return out
+
+
+def vary_ops(sizes, n, rng, source='bytesio'):
+    """a read-size sequence with the unusual but legal sizes mixed in: zero-length reads before and between the
+    real ones, None / -1 / -2 for 'everything left', reads after EOF"""
+    ops = list(sizes)
+    eff = effective(n, ops)
+    pos = 0
+    for k in range(len(ops)):
+        if pos + eff[k] >= n and eff[k] > 0 and rng.random() < 0.6:
+            # this read reaches EOF anyway: ask for everything (io.BytesIO takes any negative size, a real
+            # file only -1)
+            ops[k] = rng.choice([None, -1, -2, -1000] if source == 'bytesio' else [None, -1])
+        pos += eff[k]
+    for _ in range(rng.choice([0, 1, 1, 2, 3])):
+        ops.insert(rng.randrange(len(ops) + 1), 0)
+    if rng.random() < 0.5:
+        ops.insert(0, 0)                                      # a zero-length read before any data
+    ops += rng.choice([[], [0], [None], [-1, 0], [7, None]])
+    return ops
+
+
+def read_op(w, op, kw=False):
+    return w.read(size=op) if kw else w.read(op)
+
+
+def iterate(w, proto, nchunks, rng_seed=0):
+    """yield the chunks of an iterable wrapper using the given protocol (at most nchunks+1 steps)"""
+    if proto == 'next':
+        while True:
+            try:
+                yield next(w)
+            except StopIteration:
+                return
+    elif proto == 'for':
+        for c in w:
+            yield c
+    elif proto == 'for-break-resume':
+        cut = max(1, nchunks // 2)
+        k = 0
+        for c in w:
+            yield c
+            k += 1
+            if k >= cut:
+                break
+        for c in w:                       # a second loop over the same wrapper streams the rest
+            yield c
+    elif proto == 'for-break-next':
+        for c in w:
+            yield c
+            break
+        while True:
+            try:
+                yield next(w)
+            except StopIteration:
+                return
+    elif proto == 'iter-next':
+        while True:
+            try:
+                yield next(iter(w))
+            except StopIteration:
+                return
+    elif proto == 'two-iters':
+        a, b = iter(w), iter(w)
+        k = 0
+        while True:
+            try:
+                yield next(a if k % 2 == 0 else b)
+            except StopIteration:
+                return
+            k += 1
+    else:
+        raise ValueError(proto)
+
+
 def show_dec(f):
     """render a property access as None / value / ('EXC', type)"""
     try:
@@ -283,14 +507,42 @@ def show_dec(f):
         return ('EXC', type(e).__name__)
 
 
-def wrap_trace(allowed, data, sizes, expected=None, name_kind='str'):
+def _stream(w, data, ops, u, on_chunk):
+    """drive a wrapper over its source the way `u` says (file-like reads with the given ops, or one of the
+    iteration protocols over chunks cut by `ops`); on_chunk(k) after every chunk obtained.  Returns the
+    exception that reached the caller, if any."""
+    try:
+        if u.get('iterator'):
+            k = 0
+            for _c in iterate(w, u['proto'], len(ops)):
+                on_chunk(k)
+                k += 1
+        else:
+            for k, op in enumerate(ops):
+                read_op(w, op, u['read_kw'])
+                on_chunk(k)
+    except Exception as e:
+        return e
+    return None
+
+
+def _wrapper_for(data, ops, allowed, expected, name_kind, u):
+    if u.get('iterator'):
+        src = iter(insp_impl.cut(data, effective(len(data), ops)))
+    else:
+        src = open_source(data, u['source'])
+    return new_wrapper(src, as_name(name_kind, expected), as_names(name_kind, allowed), u['form'])
+
+
+def wrap_trace(allowed, data, sizes, expected=None, name_kind='str', u=None):
     """Read `data` through a real InspectWrapper; the decision after every read and after close.
     A decision is (format, formats): format is None | name | 'EXC:<type>'; formats is None |
     sorted name tuple | 'EXC:<type>'.  Every decision is read twice in mid-stream and three times after close;
-    `unstable` lists the points where the repeated reads did not agree."""
+    `unstable` lists the points where the repeated reads did not agree.  `sizes` are read ops (ints, None,
+    negative); `u` says how the public interface is used (see pick_usage)."""
     F = fi()
-    w = F.InspectWrapper(io.BytesIO(data), expected_format=as_name(name_kind, expected),
-                         allowed_formats=as_names(name_kind, allowed) or None)
+    u = usage(u)
+    w = _wrapper_for(data, sizes, allowed, expected, name_kind, u)
     order = list(F.ALL_FORMATS)
 
     def once():
@@ -313,19 +565,14 @@ def wrap_trace(allowed, data, sizes, expected=None, name_kind='str'):
             unstable.append((where, ds))
         return ds[0]
     decs = []
-    escaped = None
-    for k, n in enumerate(sizes):
-        try:
-            w.read(n)
-        except Exception as e:           # legitimate only as the expected inspector's cut-off (C06)
-            escaped = type(e).__name__
-            break
-        decs.append(decision('after read %d' % k))
+    esc = _stream(w, data, sizes, u, lambda k: decs.append(decision('after read %d' % k)))
+    escaped = type(esc).__name__ if esc is not None else None      # legitimate only as the expected inspector's cut-off (C06)
     close_escaped = None
-    try:
-        w.close()
-    except Exception as e:               # close() has no reason to raise at all
-        close_escaped = type(e).__name__
+    for _ in range(2 if u['close_twice'] else 1):
+        try:
+            w.close()
+        except Exception as e:               # close() has no reason to raise at all
+            close_escaped = type(e).__name__
     final = decision('after close')
     matches = {}
     for i in whitebox.w_inspectors(w):
@@ -334,32 +581,30 @@ def wrap_trace(allowed, data, sizes, expected=None, name_kind='str'):
         except Exception as e:
             matches[i.NAME] = 'EXC:' + type(e).__name__
     return {'decisions': decs, 'final': final, 'escaped': escaped, 'close_escaped': close_escaped, 'matches': matches,
-            'unstable': unstable, 'names': sorted(i.NAME for i in whitebox.w_inspectors(w))}
+            'unstable': unstable, 'names': sorted(i.NAME for i in whitebox.w_inspectors(w)), 'wrapper': w}
 
 
-def run_wrap_b(allowed, expected, data, sizes, name_kind='str'):
-    """insp_impl.run_wrap's rendering (the driver's `wrap` reply), with every decision read three times
-    (rendered UNSTABLE(...) if the reads disagree) and names optionally passed as str subclasses"""
+def run_wrap_b(allowed, expected, data, sizes, name_kind='str', u=None):
+    """insp_impl.run_wrap's rendering (the driver's `wrap` reply for the EFFECTIVE read sizes), with every
+    decision read repeatedly (rendered UNSTABLE(...) if the reads disagree), names optionally passed as str
+    subclasses and the public interface used the way `u` says"""
     F = fi()
-    w = F.InspectWrapper(insp_impl.Src(data), expected_format=as_name(name_kind, expected),
-                         allowed_formats=as_names(name_kind, allowed) or None)
+    u = usage(u)
+    w = _wrapper_for(data, sizes, allowed, expected, name_kind, u)
 
     def show(n=2):
         ds = [insp_impl.show_fmt(w) for _ in range(n)]
         return ds[0] if all(d == ds[0] for d in ds) else 'UNSTABLE(%s)' % '~'.join(ds)
     decisions = []
-    end = 'done'
-    for n in sizes:
-        try:
-            w.read(n)
-        except F.ImageFormatError as e:
-            end = 'mismatch' if 'does not match expected format' in str(e) else 'raised:ImageFormatError'
-            break
-        except Exception as e:
-            end = 'raised:' + insp_impl.errname(e)
-            break
-        decisions.append(show())
-    w.close()
+    e = _stream(w, data, sizes, u, lambda k: decisions.append(show()))
+    if e is None:
+        end = 'done'
+    elif isinstance(e, F.ImageFormatError):
+        end = 'mismatch' if 'does not match expected format' in str(e) else 'raised:ImageFormatError'
+    else:
+        end = 'raised:' + insp_impl.errname(e)
+    for _ in range(2 if u['close_twice'] else 1):
+        w.close()
     order = list(F.ALL_FORMATS)
     insps = sorted(whitebox.w_inspectors(w), key=lambda i: order.index(i.NAME))
     errd = whitebox.w_errored(w)
@@ -480,12 +725,14 @@ def model_faults(faults, expected):
     return sorted(set(out))
 
 
-def pipe_trace(allowed, expected, data, sizes, faults, iterator=False, via_iter_protocol=False, name_kind='str'):
+def pipe_trace(allowed, expected, data, sizes, faults, iterator=False, via_iter_protocol=False, name_kind='str', u=None):
     """Stream through a real InspectWrapper with faults injected into the inspectors (see norm_fault).
     Everything the C06 oracle needs is recorded here, on the implementation only."""
     F = fi()
     faults = [norm_fault(f) for f in faults]
-    chunks = insp_impl.cut(data, sizes)
+    u = usage(u)
+    ops = list(sizes)
+    chunks = insp_impl.cut(data, effective(len(data), ops))
     yielded = [0]
     if iterator:
         def gen():
@@ -494,9 +741,8 @@ def pipe_trace(allowed, expected, data, sizes, faults, iterator=False, via_iter_
                 yield c
         src = gen()
     else:
-        src = CountingSource(data)
-    w = F.InspectWrapper(src, expected_format=as_name(name_kind, expected),
-                         allowed_formats=as_names(name_kind, allowed) or None)
+        src = open_source(data, u['source'])
+    w = new_wrapper(src, as_name(name_kind, expected), as_names(name_kind, allowed), u['form'])
     cur = [0]
     fed_after_finish = []
     prop_reads = []       # (name, property, chunk index, raised?) - reads of a fault-carrying property
@@ -580,29 +826,42 @@ def pipe_trace(allowed, expected, data, sizes, faults, iterator=False, via_iter_
         i.eat_chunk = make(i, i.eat_chunk, eatf, postf, propf, orig, feeds)
     out = []
     end = ('done', None)
-    for n, c in zip(sizes, chunks):
-        try:
-            got = next(w) if iterator else w.read(n)
-        except StopIteration:
-            break
-        except Exception as e:
-            end = ('raised', e)
-            break
-        out.append(got)
-        cur[0] += 1
+    try:
+        if iterator:
+            for got in iterate(w, u['proto'], len(chunks)):
+                out.append(got)
+                cur[0] += 1
+                if len(out) > len(chunks):
+                    break
+        else:
+            for op in ops:
+                out.append(read_op(w, op, u['read_kw']))
+                cur[0] += 1
+    except Exception as e:
+        end = ('raised', e)
     if iterator:
         consumed = yielded[0]
     else:
         consumed = src.tell()
     if end[0] == 'done':
         if iterator:
-            try:
-                next(w)
+            if len(out) > len(chunks):
                 end = ('extra-item', None)
-            except StopIteration:
-                pass
+            else:
+                for _ in range(2):                      # next() after StopIteration keeps raising StopIteration
+                    try:
+                        next(w)
+                        end = ('extra-item', None)
+                    except StopIteration:
+                        pass
         else:
-            w.close()
+            for _ in range(2 if u['close_twice'] else 1):
+                w.close()
+    elif not iterator:
+        try:
+            src.close()
+        except Exception:
+            pass
     return {'chunks': chunks, 'out': out, 'end': end, 'events': events, 'consumed': consumed,
             'fed_after_finish': fed_after_finish, 'prop_reads': prop_reads,
             'errored': {i.NAME for i in whitebox.w_errored(w)},
